@@ -486,8 +486,7 @@ def _acc_ok(ck: Check, fm: FuncModel, se, g: FuncModel, label: str) -> None:
         probs.append("the list of free places is not collected from the nodes of the Petri net")
     else:
         want = logic.And(KP, logic.Not(logic.B(f"in:idx(p2v({N_}),0)|ensure_subspace")))
-        for cn, el in se.accs[tok]:
-            pc = se.cond(cn)
+        for el, pc, cn in se.contributions(tok):
             if not logic.equivalent(logic.And(pc, EXCL), logic.And(want, EXCL)):
                 probs.append(f"a place counts as free under `{logic.show(pc)}`, expected: place of a variable outside ensure_subspace "
                              f"(otherwise the non-triviality clause is satisfied by the enclosing space itself, or real sub-spaces "
